@@ -70,7 +70,7 @@ def run(ctx):
             kw["stall"] = True
         vjobs.append((base + i + 1, row, kw))
     traces = framework.pool_map(_job, jobs + vjobs)
-    ctx.validate(FAM, "Trace_KeepAlive", "Trace_KeepAlive.cfg", traces, label="s2c+c2s", sig_fn=drv.with_kind(sig_of, base + 1))
+    ctx.validate(FAM, "Trace_KeepAlive", "Trace_KeepAlive.cfg", traces, label="s2c+c2s", sig_fn=drv.with_kind(sig_of, base + 1), timeout=900)
     ctx.cov["rule"] = ("rows: the full well-formed product version{1.0,1.1} x Connection{absent,close,Close,keep-alive,"
                        "Keep-Alive,'close, x','x, close',x} x method x request framing x no_keep_alive x early finish x "
                        "style{buffered,flushed,flushed+Content-Length} x status{200,204} (%d rows), each followed by a second "
@@ -85,7 +85,7 @@ def replay(ctx, rec):
         return 1
     has1 = any(e["a"] == "observe1" for e in t["ev"])
     t2 = drv.ka_trace(t["id"], t["cfg"], schedule="stepwise" if has1 else "pipelined", **t.get("kw", {}))
-    v = ctx.validate(FAM, "Trace_KeepAlive", "Trace_KeepAlive.cfg", [t2], label="replay", sig_fn=sig_of, shards=1)
+    v = ctx.validate(FAM, "Trace_KeepAlive", "Trace_KeepAlive.cfg", [t2], label="replay", sig_fn=sig_of, shards=1, timeout=900)
     bad = v[t2["id"]]
     for e in t2["ev"]:
         if "out" in e["obs"]:
